@@ -587,6 +587,13 @@ def is_in_polygon(polygon, points, ncaps=0):
     if ncaps > 0:
         usencaps = min(ncaps, p['ncaps'])
     in_polygon = np.ones((npoints,), dtype=bool)
+    if usencaps > 0:
+        #
+        # A row of a FITS file whose polygons have only one cap has
+        # XCAPS of shape (3,) and a scalar CMCAPS.
+        #
+        p['x'] = np.atleast_2d(p['x'])
+        p['cm'] = np.atleast_1d(p['cm'])
     for icap in range(usencaps):
         if is_cap_used(p['use_caps'], icap):
             in_polygon &= is_in_cap(p['x'][icap, :], p['cm'][icap], points)
